@@ -78,15 +78,34 @@ func solveOne(o *Obligation, dir string, idx int, quickSec, fullSec int) {
 	total := r.Seconds
 	if !definite(r) && !o.Cover {
 		rctx, cancel := context.WithCancel(ctx)
-		ch := make(chan solveResult, len(solvers))
+		ch := make(chan solveResult, len(solvers)+2)
+		n := len(solvers)
 		for _, s := range solvers {
 			s := s
 			go func() { ch <- runSolver(rctx, s, file, fullSec) }()
 		}
+		if o.smtNoQ != "" {
+			// weaker variant without quantified assumptions: only an unsat answer counts
+			nqFile := strings.TrimSuffix(file, ".smt2") + ".nq.smt2"
+			os.WriteFile(nqFile, []byte(o.smtNoQ), 0o644)
+			defer os.Remove(nqFile)
+			for _, s := range []solverSpec{solvers[0], solvers[2]} {
+				s := s
+				n++
+				go func() {
+					r := runSolver(rctx, s, nqFile, fullSec)
+					if r.Result != "unsat" {
+						r.Result = "unknown"
+					}
+					r.Solver += "(no-quantified-hyps)"
+					ch <- r
+				}()
+			}
+		}
 		var best solveResult
 		got := false
 		start := time.Now()
-		for range solvers {
+		for k := 0; k < n; k++ {
 			rr := <-ch
 			outputs = append(outputs, fmt.Sprintf("[%s %.2fs] %s", rr.Solver, rr.Seconds, rr.Result))
 			if rr.Result == "error" {
@@ -130,6 +149,12 @@ func firstLines(s string, n int) string {
 func solveAll(obls []*Obligation, dir string, workers, quickSec, fullSec int) {
 	for _, o := range obls {
 		o.smtText = o.SMT(true)
+		if !o.Cover && strings.Contains(o.smtText, "(forall ") {
+			nq := o.smtVariant(false, true)
+			if nq != o.smtText {
+				o.smtNoQ = nq
+			}
+		}
 	}
 	var wg sync.WaitGroup
 	ch := make(chan int)
